@@ -508,6 +508,17 @@ static void gen_scalar_seqs(const std::vector<long long> &alpha, int maxlen) {
     for (int len = 0; len <= maxlen; ++len) rec(len);
 }
 
+// long texts (C01/C03): runs of one scalar and alternations of two, at lengths around every power of two up
+// to 256 units and around the small-string limits - size arithmetic, fast paths and fixed-size scratch
+// buffers depend on the length and on how many units each character takes
+static void gen_runs(const std::vector<long long> &alpha) {
+    static const int lens[] = {7, 8, 11, 12, 13, 15, 16, 17, 23, 31, 32, 33, 40, 47, 48, 49, 63, 64, 65, 95, 96, 97, 127, 128, 129, 255, 256, 257};
+    for (long long a : alpha) for (int n : lens) { std::vector<uint32_t> sc((size_t)n, (uint32_t)a); feed_scalars(sc); }
+    for (size_t i = 0; i + 1 < alpha.size(); ++i) for (int n : {16, 33, 48, 64, 100}) {
+        std::vector<uint32_t> sc; for (int k = 0; k < n; ++k) sc.push_back((uint32_t)alpha[(k & 1) ? i + 1 : i]); feed_scalars(sc);
+    }
+}
+
 template <class T> static void feed_units(const Table<T> &tbl, Enc src, const std::vector<long long> &u) {
     if (!S.take()) return;
     std::vector<T> v; bool nul = false;
@@ -669,6 +680,7 @@ int main(int argc, char **argv) {
 
     if (gen == "scalars") gen_scalars(lo, hi, step, ctx);
     else if (gen == "scalarseqs") gen_scalar_seqs(alpha, maxlen);
+    else if (gen == "runs") gen_runs(alpha);
     else if (gen == "units") gen_units(src, alpha, minlen, maxlen);
     else if (gen == "random") gen_random(count, seed, maxlen);
     else if (gen == "file") gen_file(file.c_str());
